@@ -52,6 +52,16 @@ def handle (j : Json) : Json :=
       return Json.mkObj [("verdict", verdictJ (failureOf t))]
     | "replace" =>
       return Json.mkObj [("out", sj (replace (← getStr j "pat").toList (← getStr j "rep").toList (← getStr j "s").toList))]
+    | "final" =>
+      let v ← match (← getStr j "verdict") with
+        | "done" => pure Verdict.done
+        | "raised" => pure (Verdict.raised "" [])
+        | "stillPolling" => pure Verdict.stillPolling
+        | x => throw s!"bad-verdict {x}"
+      let re ← j.getObjValAs? Bool "result_exists"
+      let f := if (← getStr j "context") == "node" then submitNode v re else submitPlain v re
+      return Json.mkObj [("final", Json.str (match f with
+        | .complete => "complete" | .failed => "failed" | .stillPolling => "stillPolling" | .hang => "hang"))]
     | "sge_run" =>
       let o := sgeRun .dict true (← getNat j "tasks") []
       return Json.mkObj [("verdict", verdictJ o.verdict), ("calls", Json.arr (o.calls.map strsJ).toArray)]
